@@ -519,6 +519,10 @@ def main():
         dumps = []
         curd = []
         tail = []
+        gridok = [l for l in mo if l.startswith("gridok")]
+        if gridok != ["gridok 1"]:
+            disagreements.append({"case": i, "step": None, "what": "GridOK check of the model: %s" % gridok})
+        mo = [l for l in mo if not l.startswith("gridok")]
         for line in mo:
             if line == "enddump":
                 curd.append(line)
